@@ -290,7 +290,8 @@ class Worker:
         if delay <= 0:
             send()
         else:
-            w.broker.call_later(None, delay, send, label="worker-reply:%s#%d" % (self.name, idx))
+            t = w.broker.call_later(None, delay, send, label="worker-reply:%s#%d" % (self.name, idx))
+            t.corr = props.correlation_id
 
 
 class Raw:
